@@ -314,6 +314,10 @@ def run(ctx):
     from . import c41
 
     c41.monitor_forgotten_only_after_unsubscribed(ctx, rm, "C01.D2-no-monitor-events-after-stop")
+    # the RunStop a control exception asks for can actually be composed
+    from . import c02
+
+    c02.control_exception_statuses_legal(ctx, rm, "C01.D1-stop-status-legal")
     ctx.extra.update(tail.g.stats())
 
 
